@@ -13,7 +13,8 @@
      fmt                        formatInput applied to a node result
      normalised v               v is not a Go int/int32/int64 or float *)
 From Coq Require Import String.
-From Formula Require Import Sem.Eval Proofs.BridgeFacts.
+From Coq Require Import List Permutation.
+From Formula Require Import Sem.Eval Proofs.BridgeFacts Proofs.ShowFacts.
 
 (* ---------------- 1. called exactly once, or not at all ---------------- *)
 
@@ -199,9 +200,10 @@ Theorem num_to_float : forall is32 d, conv_to (TFloat is32) (VNum d) = Ok (VGoFl
 Proof. exact BridgeFacts.num_to_float. Qed.
 
 (* "anything to string by formatting": every non-null value that convToString formats (strings
-   unchanged, numbers, booleans and Go integers by their text) arrives as that text; null arrives as "" *)
+   unchanged, numbers, booleans and Go integers by their text, arrays and maps by the texts of their elements)
+   arrives as that text; null - the untyped nil or a typed nil pointer - arrives as "" *)
 Theorem any_to_string_formats :
-  (forall v s, v <> VNull -> conv_to_string v = Some s -> conv_to TString v = Ok (VStr s)) /\
+  (forall v s, is_null v = false -> conv_to_string v = Some s -> conv_to TString v = Ok (VStr s)) /\
   conv_to TString VNull = Ok (VStr []).
 Proof. exact BridgeFacts.any_to_string_formats. Qed.
 
@@ -361,6 +363,45 @@ Theorem example_two_calls :
    mkR (r_this ex_st) [(8, [VStr (str "x")]); (7, [VStr (str "a"); VNum (Fin false 1 0)])]).
 Proof. exact BridgeFacts.ex_two_calls. Qed.
 
+(* "anything to string by formatting", arrays and maps: the elements between brackets, separated by one space,
+   each by its own text ([shows x p] : show_value x = Some p); the entries of a map as key:text in the byte order
+   of the keys *)
+Theorem array_to_string_param : forall l parts, Forall2 shows l parts ->
+  conv_to TString (VArr l) = Ok (VStr (91 :: join_strs parts [32] ++ [93])%list).
+Proof. exact ShowFacts.array_to_string_param. Qed.
+
+Theorem map_to_string_param : forall m ents,
+  Forall2 (fun kx e => fst e = fst kx /\ shows (snd kx) (snd e)) m ents ->
+  conv_to TString (VMap m) =
+  Ok (VStr (str "map[" ++ join_strs (map (fun e => fst e ++ 58 :: snd e) (sort_ents ents)) [32] ++ [93])%list).
+Proof. exact ShowFacts.map_to_string_param. Qed.
+
+(* the sort used there is a sort: a permutation of its input in non-decreasing key order, strictly increasing and
+   independent of the input order when the keys are distinct (as the keys of a map are) *)
+Theorem sort_ents_perm : forall l, Permutation (sort_ents l) l.
+Proof. exact ShowFacts.sort_ents_perm. Qed.
+Theorem sort_ents_strict : forall l, NoDup (map fst l) ->
+  Sorted.StronglySorted (fun a b => bytes_ltb (fst a) (fst b) = true) (sort_ents l).
+Proof. exact ShowFacts.sort_ents_strict. Qed.
+
+(* so the text a host function receives for a map does not depend on the order in which Go iterates over it *)
+Theorem map_to_string_param_order_independent : forall m m', NoDup (map fst m) -> Permutation m m' ->
+  conv_to TString (VMap m) = conv_to TString (VMap m').
+Proof. exact ShowFacts.map_to_string_param_order_independent. Qed.
+
+(* and data made of strings, booleans, numbers other than NaN, Go integers, nil, and arrays and maps of these to
+   any depth always has a text: the string parameter always receives one *)
+Theorem printable_to_string_param : forall v, printable v = true -> exists s, conv_to TString v = Ok (VStr s).
+Proof. exact ShowFacts.printable_to_string_param. Qed.
+
+Example to_string_param_examples :
+  conv_to TString (VArr [VGoInt GInt8 (-3); VStr (str "a b"); VNilPtr; VArr [VArr []]; VMap [(str "k", VBool false)]])
+    = Ok (VStr (str "[-3 a b <nil> [[]] map[k:false]]")) /\
+  conv_to TString (VMap [(str "b", VNull); (str "", VArr [VNum (dec_of_Z 7)]); (str "B", VStr [])])
+    = Ok (VStr (str "map[:[7] B: b:<nil>]")) /\
+  conv_to TString (VArr [VOpaque 1]) = Unk.
+Proof. exact ShowFacts.to_string_param_examples. Qed.
+
 Print Assumptions call_node_invokes_bridge_once.
 Print Assumptions args_left_to_right.
 Print Assumptions host_called_at_most_once.
@@ -405,3 +446,10 @@ Print Assumptions example_call_spread.
 Print Assumptions example_call_spread_misuse.
 Print Assumptions example_call_fails.
 Print Assumptions example_two_calls.
+Print Assumptions array_to_string_param.
+Print Assumptions map_to_string_param.
+Print Assumptions sort_ents_perm.
+Print Assumptions sort_ents_strict.
+Print Assumptions map_to_string_param_order_independent.
+Print Assumptions printable_to_string_param.
+Print Assumptions to_string_param_examples.
